@@ -277,6 +277,7 @@ func runC16(e *emitter, tier string, seed uint64) {
 	e.counters["edit-pairs-same-signature"] = pairs
 	// 5. edit sessions through the real FSEventHandler; 6. a long-running development-mode process
 	c16Sessions(e, r, tier, all)
+	c16TextFileNames(e)
 	c16Live(e, tier)
 }
 
